@@ -19,7 +19,7 @@ Extraction "model.ml"
   (* C15 *) hist_okb ts_init ts_next ts_run
   (* engine *) run single match_exists naive
   (* certificates *) wf_check arity_ok compute_rank lab_ok compute_lab cert_complete char_entails char_refutes
-     atoms_self s_goodb m_goodb s_keys_tight m_keys_tight m_keys_nn slab_ok cert_unamb compute_slab accept_vdet empty_keys_at_root empty_scope_closed empty_pattern_keys char_ceqb
+     atoms_self s_goodb m_goodb s_keys_tight m_keys_tight m_keys_nn slab_ok cert_unamb compute_slab compute_slab_cap accept_vdet empty_keys_at_root empty_scope_closed empty_pattern_keys char_ceqb
   (* trees *) with_children with_pairwise_mutex with_transitive_mutex with_powerset char_tree pg_tree
      pg_conditioned_res pgc_eqb mkey_cmp
   (* specification *) occ_stringb occ_matrixb all_cells_from
